@@ -187,6 +187,16 @@ def run(ctx):
         else:
             r8.violation("%s:order" % mode, "the name look-up is not subordinate to a failed emoticon look-up (emoticons whose word part is an emoji name lose their emoji)",
                          site_of(b, nbb))
+        # … and nothing else decides whether a word is looked up as a name: a word the table lists must reach the look-up whatever its length or shape
+        extra_n = [(d, pol) for (d, pol, s) in g
+                   if not ((d.k == "call" and d.a[0].endswith(("get_ansi_encoding", "get_suggestion_include_english"))) or
+                           (d.k == "discr" and contains_call(d, lambda n: n in emoticon_acc)) or
+                           (d.k == "call" and d.a[0] in prog.fns and (prog.fns[d.a[0]].get("impl") or {}).get("self", "").startswith("config::Config")))]
+        if extra_n:
+            r8.undecidable("%s:name-always" % mode, "the name look-up is skipped unless %r is %s — the rule cannot show that this never keeps a word that is a name in the table "
+                           "from being looked up" % (extra_n[0][0], extra_n[0][1]), site_of(b, nbb))
+        else:
+            r8.ok("%s:name-always" % mode, "every word whose emoticon look-up fails is looked up as a name (outside ANSI mode)")
         # ---- R2 emoticon arm
         arm_pushes = []
         for p in evs:
@@ -399,7 +409,7 @@ def run(ctx):
         r10.undecidable("tables", "emoji tables of the pinned emojicon crate not found")
     r10.floor(1, "names")
     r1.floor(4, "2 modes × (emoticon arg, name arg)")
-    r8.floor(2, "2 modes")
+    r8.floor(4, "2 modes × (order, name-always)")
     r2.floor(3, "2 emoji pushes + phonetic literal")
     r3.floor(4, "2 modes × (chain, closure)")
     r4.floor(4, "2 modes × (emoticon, name)")
